@@ -562,18 +562,48 @@ impl Run {
                     }
                     let mut b = vec![0u8; (*buf).max(1) as usize];
                     let mut got = Vec::new();
-                    loop {
-                        match block_on(rd.read(&mut b)) {
-                            Ok(0) => break,
-                            Ok(n) => got.extend_from_slice(&b[..n]),
-                            Err(e) => bail!(self, ctx, "read-error", "streamed read failed after {} bytes: {e}", got.len()),
-                        }
-                        if got.len() > a.bytes.len() + 4096 {
-                            break;
+                    // how the bytes are pulled: read() to the end; a few read()s and then read_all()
+                    // for "all remaining data"; read_all() alone; chunk by chunk
+                    let mode = (ai >> 3) % 4;
+                    let mut reads_left = match mode {
+                        1 => 1 + (ai >> 5) as usize % 3,
+                        _ => usize::MAX,
+                    };
+                    if mode <= 1 {
+                        loop {
+                            if reads_left == 0 {
+                                break;
+                            }
+                            reads_left -= 1;
+                            match block_on(rd.read(&mut b)) {
+                                Ok(0) => break,
+                                Ok(n) => got.extend_from_slice(&b[..n]),
+                                Err(e) => bail!(self, ctx, "read-error", "streamed read failed after {} bytes: {e}", got.len()),
+                            }
+                            if got.len() > a.bytes.len() + 4096 {
+                                break;
+                            }
                         }
                     }
+                    if mode == 1 || mode == 2 {
+                        match block_on(rd.read_all()) {
+                            Ok(rest) => got.extend_from_slice(&rest),
+                            Err(e) => bail!(self, ctx, "read-error", "read_all failed after {} bytes: {e}", got.len()),
+                        }
+                        self.lab(ctx, if mode == 1 { "streamed read: read() calls, then read_all()" } else { "streamed read: read_all()" });
+                    }
+                    if mode == 3 {
+                        loop {
+                            match block_on(rd.next_chunk()) {
+                                Ok(Some(c)) => got.extend_from_slice(&c),
+                                Ok(None) => break,
+                                Err(e) => bail!(self, ctx, "read-error", "next_chunk failed after {} bytes: {e}", got.len()),
+                            }
+                        }
+                        self.lab(ctx, "streamed read: chunk by chunk");
+                    }
                     if got != a.bytes {
-                        bail!(self, ctx, "read-mismatch", "streamed read (buffer {}) returned {} bytes, stored {} (first difference at {:?})", b.len(), got.len(), a.bytes.len(), got.iter().zip(a.bytes.iter()).position(|(x, y)| x != y));
+                        bail!(self, ctx, if mode == 1 { "read-mismatch:read-then-read_all" } else { "read-mismatch" }, "streamed read (mode {mode}, buffer {}) returned {} bytes, stored {} (first difference at {:?})", b.len(), got.len(), a.bytes.len(), got.iter().zip(a.bytes.iter()).position(|(x, y)| x != y));
                     }
                     match block_on(rd.verify()) {
                         Ok(true) => {},
